@@ -52,6 +52,22 @@ CFG = {
             "4xx final response on each stream and no handler entry over the connection - a 101, no final response "
             "within 3 s, a failed stream or a handler entry is a violation - and compares the status with the model's "
             "400 and that an ordinary request is answered on the connection afterwards. "
+            "Body slice (group 'body', both transports): conformant handshakes that also carry a request body - "
+            "Content-Length 0 / 1 / 5 / 4096 / 65537, chunked with one chunk / several / trailers / none, Expect: "
+            "100-continue with either framing (thorough: Content-Length across 15..8193, 16385, 1 MiB; 17 / 257 / 4097 "
+            "chunks; a 65537-byte chunk), the body in the same write as the head or in the next - followed by the usual "
+            "payload: must be 101 with the right accept value, handler entered, pipe working; the same shapes on "
+            "handshakes lacking an element (body at most 4096 bytes and in the same write, so that the server's close "
+            "cannot become a TCP reset overtaking the answer) must be 4xx. A 4xx for a conformant handshake with a "
+            "body is a violation. What the unchanged tree does with the body, measured and made the expectation: "
+            "dropshot does not read it, and hyper upgrades after consuming whatever part of it one decoding step gave "
+            "(all of a small body in one piece, the first chunk of a chunked body, the first ~32 KiB of a 64 KiB one; "
+            "it varies with timing), so the unread remainder of the body - chunk framing included - reaches the channel "
+            "handler ahead of the payload and the 101's Connection field then reads 'close'. The judge therefore "
+            "demands: the client gets back some suffix of the body as it went on the wire (possibly empty) followed by "
+            "exactly the payload and a clean end of stream; for bodies above 300 bytes the harness reports (payload "
+            "bytes, bytes received, leading excess, excess = tail of the body wire bytes, first differing offset, "
+            "clean end) after comparing byte for byte. "
             "A 101 after which the pipe is dead (no echo, no clean end of stream, handler not "
             "entered) is a violation on either transport. Non-trivial: at least one header line; distinct by case "
             "content (transport included).",
@@ -83,7 +99,7 @@ CFG = {
         "the OS loopback TCP stack",
     ],
     "assumptions": [
-        "handshakes are HTTP/1.1 GET without a body (RFC 6455 requires HTTP/1.1; hyper does not offer an upgrade on "
+        "handshakes are HTTP/1.1 GET, with and without a request body (RFC 6455 requires HTTP/1.1; hyper does not offer an upgrade on "
         "1.0); HTTP/2 requests are exercised as requests that lack the Connection and Upgrade elements (RFC 8441 "
         "extended CONNECT is not offered by the server and not modelled)",
         "the #[channel] adapter calls handle exactly once on the value from_request returned (read from "
